@@ -1,4 +1,5 @@
 import TnVerif.Lemmas.IndexSpec
+import TnVerif.Lemmas.SqueezeOps
 /-!
 # C03 — indexing a compressed tensor equals (natural) NumPy indexing of the dense array
 
@@ -147,5 +148,410 @@ theorem second_run_error (lastRR : Nat) (p : Option (PInt R)) (ls : List (List N
 /-- a non-positive step is rejected -/
 theorem bad_step_error (a b : Option Int) (s : Int) (n : Nat) (h : s ≤ 0) : normSlice a b (some s) n = .error .badStep := by
   simp [normSlice, h]
+
+/-! ## every key of the grammar: shape, well-formedness and values of `t[key]`; which keys are accepted -/
+
+omit [CommSemiring R] in
+/-- the processed and normalised key consumes exactly the modes of `t` -/
+theorem getitem_fits (t : Tensor R) (key key1 : List RawItem) (items : List Item)
+    (h1 : processKey t.length key = .ok key1) (h2 : normKey key1 t.shape = .ok items) :
+    gk_consI items = t.length ∧ fits (groupKey items) t.length (outShape (groupKey items)).length := by
+  obtain ⟨c1, _⟩ := gk_processKey_cons _ _ _ h1
+  obtain ⟨n1, _⟩ := gk_normKey_cons _ _ _ h2
+  have := gk_fits items
+  rw [n1, c1] at this
+  exact ⟨by rw [n1, c1], this⟩
+
+/-- **`t[key]` for every key of the grammar** (integers, slices, `None`, Ellipsis, one run of index arrays): whenever
+    the call returns, the result has the NumPy shape `outShape` (a slice contributes its count, `None` a 1, a run the
+    length of its arrays, an integer nothing); it is a plain scalar exactly when that shape is empty, otherwise a
+    well-formed tensor; and every entry is the entry of `t` at the source index. -/
+theorem getitem_spec (t : Tensor R) (ht : t.WF) (key key1 : List RawItem) (items : List Item)
+    (h1 : processKey t.length key = .ok key1) (h2 : normKey key1 t.shape = .ok items)
+    (res : Tensor R ⊕ R) (hr : t.getitem key = .ok res) :
+    (outShape (groupKey items) = [] → res = .inr (t.dense (srcIdx (groupKey items) []))) ∧
+    (outShape (groupKey items) ≠ [] → ∃ v : Tensor R, res = .inl v ∧ v.WF ∧ v.shape = outShape (groupKey items) ∧
+      ∀ out, out.length = v.length → v.dense out = t.dense (srcIdx (groupKey items) out)) := by
+  obtain ⟨hcons, hf⟩ := getitem_fits t key key1 items h1 h2
+  cases t with
+  | nil => exact absurd ht (by simp [Tensor.WF])
+  | cons m0 rest =>
+    have hr0 := hr
+    simp only [Tensor.getitem, h1, h2, bind, Except.bind] at hr
+    split at hr
+    · simp at hr
+    · rename_i r hgo
+      have ho := outRank_getLast m0 rest m0.core.rl
+      obtain ⟨w1, _, w3, w4⟩ := gk_goKey_wf_shape _ (groupKey items) (m0 :: rest) false Option.none m0.core.rl r ht ho
+        (by intro q hq; cases hq) hgo
+      simp only [rowdim] at w1
+      obtain ⟨rl, rq⟩ := r
+      simp only at w1 w3 w4
+      constructor
+      · intro hs
+        rw [hs] at w3 hf
+        have hrl : rl = [] := by simpa [Tensor.shape] using w3
+        subst hrl
+        have hne : groupKey items ≠ [] := by
+          apply gk_groupKey_ne
+          intro h; subst h
+          simp [gk_consI] at hcons
+        have hq := w4 rfl (Or.inr hne)
+        cases rq with
+        | none => simp at hq
+        | some q =>
+          simp only [pure, Except.pure, Except.ok.injEq] at hr
+          subst hr
+          rw [← getitem_scalar (m0 :: rest) ht key key1 items h1 h2 q.total hr0 hf]
+      · intro hs
+        cases rl with
+        | nil => rw [← w3] at hs; simp [Tensor.shape] at hs
+        | cons m l =>
+          simp only [pure, Except.pure, Except.ok.injEq] at hr
+          subst hr
+          refine ⟨m :: l, rfl, ⟨rfl, w1.2.1, w1.2.2⟩, w3, ?_⟩
+          intro out ho'
+          have hol : out.length = (outShape (groupKey items)).length := by
+            rw [ho', ← w3, shape_length]
+          exact getitem_tensor (m0 :: rest) ht key key1 items h1 h2 m l hr0 out (by rw [hol]; exact hf)
+
+/-- **which keys are accepted**: once `_process_key` and the bounds normalisation have succeeded, `t[key]` returns iff
+    the key contains at most one contiguous run of index arrays and the arrays of that run have equal lengths;
+    every other key of that kind raises. -/
+theorem getitem_ok_iff (t : Tensor R) (key key1 : List RawItem) (items : List Item)
+    (h1 : processKey t.length key = .ok key1) (h2 : normKey key1 t.shape = .ok items) :
+    (∃ res, t.getitem key = .ok res) ↔ gk_runsOK false (groupKey items) := by
+  constructor
+  · intro ⟨res, hr⟩
+    simp only [Tensor.getitem, h1, h2, bind, Except.bind] at hr
+    split at hr
+    · simp at hr
+    · rename_i r hgo
+      exact gk_goKey_runsOK _ _ _ _ _ _ hgo
+  · intro hruns
+    obtain ⟨_, hf⟩ := getitem_fits t key key1 items h1 h2
+    obtain ⟨lastRR, hfin⟩ := getitem_unfold t key key1 items h1 h2
+    obtain ⟨r, hr⟩ := gk_goKey_ok lastRR (groupKey items) t false Option.none _ hf hruns
+    exact ⟨_, hfin r hr⟩
+
+/-- errors of `_process_key` (second Ellipsis, too many entries) are raised by `t[key]` -/
+theorem getitem_processKey_error (t : Tensor R) (key : List RawItem) (e : IdxErr)
+    (h : processKey t.length key = .error e) : t.getitem key = .error e := by
+  simp [Tensor.getitem, h, bind, Except.bind]
+
+/-- errors of the bounds normalisation (out-of-range integer, non-positive step) are raised by `t[key]` -/
+theorem getitem_normKey_error (t : Tensor R) (key key1 : List RawItem) (e : IdxErr)
+    (h1 : processKey t.length key = .ok key1) (h : normKey key1 t.shape = .error e) : t.getitem key = .error e := by
+  simp [Tensor.getitem, h1, h, bind, Except.bind]
+
+/-- a key without Ellipsis with more non-`None` entries than modes is rejected -/
+theorem processKey_tooMany (N : Nat) (key : List RawItem) (he : key.any RawItem.isEllipsis = false)
+    (hc : N < gk_consR key) : processKey N key = .error .tooMany := by
+  unfold processKey
+  simp only [gk_expand_noEllipsis N key _ key he, he]
+  rw [← gk_consR_eq]
+  simp [hc]
+
+/-- **keys made of `:`, `None` and in-range integers** (the keys `squeeze`, `unsqueeze`, `unbind` and assignment
+    build): `t[key]` always returns; the result is the scalar entry if no mode is kept and no `None` is present,
+    otherwise a well-formed tensor of shape `skShape` whose entries are those of `t` at `skSrc`. -/
+theorem getitem_simple (t : Tensor R) (ht : t.WF) (s : List SK) (hc : skCons s = t.length) (hok : skOK s t.shape) :
+    (skShape s t.shape = [] → t.getitem (skRaw s) = .ok (.inr (t.dense (skSrc s [])))) ∧
+    (skShape s t.shape ≠ [] → ∃ v : Tensor R, t.getitem (skRaw s) = .ok (.inl v) ∧ v.WF ∧ v.shape = skShape s t.shape ∧
+      ∀ out, out.length = v.length → v.dense out = t.dense (skSrc s out)) := by
+  have h1 : processKey t.length (skRaw s) = .ok (skRaw s) :=
+    gk_processKey_id _ _ (sk_noEllipsis s) (by rw [sk_consR, hc])
+  have hcl : skCons s = t.shape.length := by rw [hc, shape_length]
+  have h2 : normKey (skRaw s) t.shape = .ok (skItems s t.shape) := sk_normKey s t.shape hcl hok
+  obtain ⟨res, hres⟩ := (getitem_ok_iff t _ _ _ h1 h2).mpr (by rw [sk_groupKey]; exact sk_runsOK _ _ _)
+  obtain ⟨a, b⟩ := getitem_spec t ht _ _ _ h1 h2 res hres
+  rw [sk_groupKey, sk_outShape] at a b
+  constructor
+  · intro hs
+    rw [hres, a hs, sk_srcIdx s t.shape [] (by omega)]
+  · intro hs
+    obtain ⟨v, e, w, sh, d⟩ := b hs
+    refine ⟨v, by rw [hres, e], w, sh, ?_⟩
+    intro out ho
+    rw [d out ho, sk_srcIdx s t.shape out (by omega)]
+
+example := getitem_spec (R := ℚ) [{ core := .tt 1 2 1 (fun _ j _ => (j : ℚ) + 1), U := Option.none }]
+  ⟨rfl, trivial, trivial⟩ [.none, .int (-1)] [.none, .int (-1)] [.none, .int 1] rfl rfl
+
+/-! ## `tn.squeeze`, `tn.unsqueeze`, `tn.unbind` -/
+
+theorem squeeze_aux (t : Tensor R) (ht : t.WF) (dim : Option (List Int)) (dimN : List Nat)
+    (hn : (sqops_dimList t.shape dim).mapM (fun d => normInt d t.length) = .ok dimN)
+    (h1 : ∀ m ∈ dimN, t.shape.getD m 0 = 1) :
+    ((sqops_mark t.length dimN).all id = true →
+      t.squeeze dim = .ok (.inr (t.dense (List.replicate t.length 0)))) ∧
+    ((sqops_mark t.length dimN).all id = false → ∃ v : Tensor R, t.squeeze dim = .ok (.inl v) ∧ v.WF ∧
+      v.shape = keepShape (sqops_mark t.length dimN) t.shape ∧
+      ∀ out, out.length = v.length → v.dense out = t.dense (fillIdx (sqops_mark t.length dimN) out)) := by
+  have hall : dimN.all (fun m => t.shape.getD m 0 == 1) = true := by
+    rw [List.all_eq_true]; intro m hm; simpa using h1 m hm
+  have hfl := sqops_mark_length t.length dimN
+  have hfo : flaggedOne (sqops_mark t.length dimN) t.shape := by
+    apply sqops_flaggedOne
+    intro k hk
+    by_cases hkl : k < t.length
+    · rw [sqops_mark_get _ _ _ hkl] at hk
+      have hmem : k ∈ dimN := by simpa using hk
+      have := h1 k hmem
+      have hks : k < t.shape.length := by rw [shape_length]; exact hkl
+      rw [List.getD_eq_getElem?_getD, List.getElem?_eq_getElem hks] at this
+      rw [List.getElem?_eq_getElem hks]; simpa using this
+    · rw [sqops_mark_get_ge _ _ _ (Nat.le_of_not_lt hkl)] at hk; cases hk
+  have hsq : t.squeeze dim = sqops_wrap (t.getitem (skRaw (sqSK (sqops_mark t.length dimN)))) := by
+    unfold Tensor.squeeze
+    simp only [hn, hall, if_true, sqops_sqKey_eq, sqops_skRaw_sq]
+  obtain ⟨a, b⟩ := getitem_simple t ht (sqSK (sqops_mark t.length dimN)) (by rw [sqops_skCons_sq, hfl])
+    (sqops_skOK_sq _ _ hfo)
+  rw [sqops_skShape_sq] at a b
+  have hkn := keepShape_eq_nil (sqops_mark t.length dimN) t.shape (by rw [hfl, shape_length])
+  constructor
+  · intro hal
+    rw [hsq, a (hkn.mpr hal), sqops_skSrc_sq, fillIdx_all _ hal, hfl]; rfl
+  · intro hal
+    have hne : keepShape (sqops_mark t.length dimN) t.shape ≠ [] := by
+      intro h; rw [hkn.mp h] at hal; cases hal
+    obtain ⟨v, e, w, sh, d⟩ := b hne
+    refine ⟨v, by rw [hsq, e]; rfl, w, sh, ?_⟩
+    intro out ho
+    rw [d out ho, sqops_skSrc_sq]
+
+/-- **`tn.squeeze(t, dim)` for an integer or a list `dim`** (negative entries count from the end; `dimN` are the
+    positions after Python's normalisation, all of size 1 as the routine asserts): the call returns the plain scalar
+    entry `t[0,…,0]` when every mode is listed, and otherwise a well-formed tensor whose shape is the shape of `t`
+    with exactly the listed modes removed and whose entries are those of `t` (index 0 re-inserted at the removed
+    modes).  `sqops_mark N dimN` flags position `k < N` iff `k ∈ dimN` (`sqops_mark_get`). -/
+theorem squeeze_dense (t : Tensor R) (ht : t.WF) (dim : List Int) (dimN : List Nat)
+    (hn : dim.mapM (fun d => normInt d t.length) = .ok dimN) (h1 : ∀ m ∈ dimN, t.shape.getD m 0 = 1) :
+    ((sqops_mark t.length dimN).all id = true →
+      t.squeeze (some dim) = .ok (.inr (t.dense (List.replicate t.length 0)))) ∧
+    ((sqops_mark t.length dimN).all id = false → ∃ v : Tensor R, t.squeeze (some dim) = .ok (.inl v) ∧ v.WF ∧
+      v.shape = keepShape (sqops_mark t.length dimN) t.shape ∧
+      ∀ out, out.length = v.length → v.dense out = t.dense (fillIdx (sqops_mark t.length dimN) out)) :=
+  squeeze_aux t ht (some dim) dimN hn h1
+
+/-- **`tn.squeeze(t)` (`dim=None`)**: never fails; if every mode has size 1 the result is the plain scalar entry,
+    otherwise it is a well-formed tensor whose shape is the shape of `t` with all size-1 modes removed (nothing is
+    removed, and `t` is returned entry for entry, when there is none) and whose entries are those of `t`. -/
+theorem squeeze_none_dense (t : Tensor R) (ht : t.WF) :
+    ((t.shape.map (fun n => n == 1)).all id = true →
+      t.squeeze Option.none = .ok (.inr (t.dense (List.replicate t.length 0)))) ∧
+    ((t.shape.map (fun n => n == 1)).all id = false → ∃ v : Tensor R, t.squeeze Option.none = .ok (.inl v) ∧ v.WF ∧
+      v.shape = t.shape.filter (fun n => n != 1) ∧
+      ∀ out, out.length = v.length → v.dense out = t.dense (fillIdx (t.shape.map (fun n => n == 1)) out)) := by
+  have hlt := sqops_onesDims_lt t.shape
+  have hn := sqops_mapM_nat t.shape.length (sqops_onesDims t.shape) hlt
+  have hm := sqops_mark_ones t.shape
+  rw [shape_length] at hn hm
+  have h1 : ∀ m ∈ sqops_onesDims t.shape, t.shape.getD m 0 = 1 := by
+    intro m hm'
+    simp only [sqops_onesDims, List.mem_filter, List.mem_range] at hm'
+    simpa using hm'.2
+  have := squeeze_aux t ht Option.none (sqops_onesDims t.shape) hn h1
+  rw [hm, sqops_keepShape_ones] at this
+  exact this
+
+/-- a listed mode of size ≠ 1 makes `tn.squeeze` fail its assertion -/
+theorem squeeze_assert (t : Tensor R) (dim : List Int) (dimN : List Nat)
+    (hn : dim.mapM (fun d => normInt d t.length) = .ok dimN) (h1 : ∃ m ∈ dimN, t.shape.getD m 0 ≠ 1) :
+    t.squeeze (some dim) = .error .assertion := by
+  have hall : dimN.all (fun m => t.shape.getD m 0 == 1) = false := by
+    rw [List.all_eq_false]
+    obtain ⟨m, hm, hne⟩ := h1
+    exact ⟨m, hm, by simpa using hne⟩
+  unfold Tensor.squeeze
+  simp only [sqops_dimList, hn, hall, Bool.false_eq_true, if_false]
+
+/-- a position outside `[-N, N)` makes `tn.squeeze` raise an IndexError -/
+theorem squeeze_index_error (t : Tensor R) (dim : List Int)
+    (h : ∃ d ∈ dim, d < -(t.length : Int) ∨ (t.length : Int) ≤ d) : t.squeeze (some dim) = .error .index := by
+  obtain ⟨d, hd, hr⟩ := h
+  obtain ⟨e, he⟩ := sqops_mapM_error t.length dim ⟨d, hd, _, normInt_err d t.length hr⟩
+  unfold Tensor.squeeze
+  simp only [sqops_dimList, he]
+
+/-- **`tn.unsqueeze(t, dim)`** (an integer or a list; `dimN` are the listed positions after Python's normalisation
+    against the new number of modes `N + len(dim)`, pairwise distinct): the call returns a well-formed tensor whose
+    shape is the shape of `t` with a 1 inserted at exactly the listed positions (`sqops_keepShape_insOnes`,
+    `sqops_flaggedOne_insOnes`) and whose entries are those of `t`, the indices of the inserted modes being dropped. -/
+theorem unsqueeze_dense (t : Tensor R) (ht : t.WF) (dim : List Int) (dimN : List Nat)
+    (hn : dim.mapM (fun d => normInt d (t.length + dim.length)) = .ok dimN) (hnd : dimN.Nodup) :
+    ∃ v : Tensor R, t.unsqueeze dim = .ok (.inl v) ∧ v.WF ∧
+      v.shape = sqops_insOnes (sqops_mark (t.length + dim.length) dimN) t.shape ∧
+      ∀ out, out.length = v.length → v.dense out = t.dense (keepShape (sqops_mark (t.length + dim.length) dimN) out) := by
+  obtain ⟨hlen, hlt⟩ := sqops_mapM_spec _ _ _ hn
+  have hfl := sqops_mark_length (t.length + dim.length) dimN
+  have hcnt := sqops_mark_count (t.length + dim.length) dimN hnd hlt
+  have hc : skCons (uqSK (sqops_mark (t.length + dim.length) dimN)) = t.length := by
+    have := sqops_skCons_uq (sqops_mark (t.length + dim.length) dimN)
+    omega
+  have hus : t.unsqueeze dim = sqops_wrap (t.getitem (skRaw (uqSK (sqops_mark (t.length + dim.length) dimN)))) := by
+    unfold Tensor.unsqueeze
+    simp only [hn, sqops_uqKey_eq]
+  obtain ⟨_, b⟩ := getitem_simple t ht _ hc (sqops_skOK_uq _ _)
+  rw [sqops_skShape_uq] at b
+  have hne : sqops_insOnes (sqops_mark (t.length + dim.length) dimN) t.shape ≠ [] := by
+    intro h
+    have := sqops_insOnes_length (sqops_mark (t.length + dim.length) dimN) t.shape (by rw [hc, shape_length])
+    rw [h, hfl] at this
+    have hpos : 0 < t.length := by
+      cases t with
+      | nil => exact absurd ht (by simp [Tensor.WF])
+      | cons _ _ => simp
+    simp at this; omega
+  obtain ⟨v, e, w, sh, d⟩ := b hne
+  refine ⟨v, by rw [hus, e]; rfl, w, sh, ?_⟩
+  intro out ho
+  rw [d out ho, sqops_skSrc_uq]
+
+/-- a position outside the new key makes `tn.unsqueeze` raise an IndexError -/
+theorem unsqueeze_index_error (t : Tensor R) (dim : List Int)
+    (h : ∃ d ∈ dim, d < -((t.length + dim.length : Nat) : Int) ∨ ((t.length + dim.length : Nat) : Int) ≤ d) :
+    t.unsqueeze dim = .error .index := by
+  obtain ⟨d, hd, hr⟩ := h
+  obtain ⟨e, he⟩ := sqops_mapM_error (t.length + dim.length) dim ⟨d, hd, _, normInt_err d _ hr⟩
+  unfold Tensor.unsqueeze
+  simp only [he]
+
+/-- a position listed twice (possibly once from the front and once from the end) leaves the key of `tn.unsqueeze` with
+    more non-`None` entries than `t` has modes: `_process_key` raises "too many index entries" -/
+theorem unsqueeze_dup_error (t : Tensor R) (dim : List Int) (dimN : List Nat)
+    (hn : dim.mapM (fun d => normInt d (t.length + dim.length)) = .ok dimN) (hdup : ¬ dimN.Nodup) :
+    t.unsqueeze dim = .error (.key .tooMany) := by
+  obtain ⟨hlen, _⟩ := sqops_mapM_spec _ _ _ hn
+  have hfl := sqops_mark_length (t.length + dim.length) dimN
+  have hcnt := sqops_mark_count_dup (t.length + dim.length) dimN hdup
+  have hc := sqops_skCons_uq (sqops_mark (t.length + dim.length) dimN)
+  have hp := processKey_tooMany t.length (skRaw (uqSK (sqops_mark (t.length + dim.length) dimN))) (sk_noEllipsis _)
+    (by rw [sk_consR]; omega)
+  unfold Tensor.unsqueeze
+  simp only [hn, sqops_uqKey_eq, getitem_processKey_error t _ _ hp]
+  rfl
+
+/-- **`tn.unbind(t, dim)`** for `-N ≤ dim < N`: the call returns as many results as mode `d` has entries
+    (`d = dim + N` if `dim < 0`); the `k`-th one is `t[:, …, k, …, :]`: the plain scalar `t[k]` if `t` has a single
+    mode, otherwise a well-formed tensor with mode `d` removed whose entries are those of `t` with `k` inserted at
+    position `d`. -/
+theorem unbind_dense (t : Tensor R) (ht : t.WF) (dim : Int) (hd : -(t.length : Int) ≤ dim ∧ dim < t.length) :
+    ∃ l : List (Tensor R ⊕ R), t.unbind dim = .ok l ∧
+      l.length = t.shape.getD (if dim < 0 then dim + t.length else dim).toNat 0 ∧
+      ∀ k, k < t.shape.getD (if dim < 0 then dim + t.length else dim).toNat 0 →
+        (t.length = 1 → l[k]? = some (.inr (t.dense [k]))) ∧
+        (t.length ≠ 1 → ∃ v : Tensor R, l[k]? = some (.inl v) ∧ v.WF ∧
+          v.shape = t.shape.take (if dim < 0 then dim + t.length else dim).toNat ++
+            t.shape.drop ((if dim < 0 then dim + t.length else dim).toNat + 1) ∧
+          ∀ out, out.length = v.length → v.dense out =
+            t.dense (out.take (if dim < 0 then dim + t.length else dim).toNat ++
+              k :: out.drop (if dim < 0 then dim + t.length else dim).toNat)) := by
+  generalize hdd : (if dim < 0 then dim + (t.length : Int) else dim) = d
+  have hd0 : 0 ≤ d ∧ d < t.length := by
+    subst hdd; split <;> omega
+  obtain ⟨a, ha⟩ : ∃ a : Nat, d = a := ⟨d.toNat, by omega⟩
+  subst ha
+  have ha : a < t.length := by omega
+  simp only [Int.toNat_natCast]
+  have has : a < t.shape.length := by rw [shape_length]; exact ha
+  have hget : sqops_pyGet t.shape (a : Int) = some (t.shape.getD a 0) := by
+    unfold sqops_pyGet
+    rw [sqops_normInt_nat a _ has]
+    simp [List.getD_eq_getElem?_getD, List.getElem?_eq_getElem has]
+  have hgetD : t.shape[a]? = some (t.shape.getD a 0) := by
+    simp [List.getD_eq_getElem?_getD, List.getElem?_eq_getElem has]
+  -- each slice
+  have hkey : ∀ sl, sqops_ubKey t.length (a : Int) sl = skRaw (ubSK a (t.length - 1 - a) sl) := by
+    intro sl
+    rw [sqops_skRaw_ub]
+    unfold sqops_ubKey
+    have : ((t.length : Int) - 1 - (a : Int)).toNat = t.length - 1 - a := by omega
+    rw [this, Int.toNat_natCast]
+  have hsl : ∀ sl, sl < t.shape.getD a 0 →
+      (skShape (ubSK a (t.length - 1 - a) sl) t.shape = [] →
+        t.getitem (skRaw (ubSK a (t.length - 1 - a) sl)) = .ok (.inr (t.dense (skSrc (ubSK a (t.length - 1 - a) sl) [])))) ∧
+      (skShape (ubSK a (t.length - 1 - a) sl) t.shape ≠ [] → ∃ v : Tensor R,
+        t.getitem (skRaw (ubSK a (t.length - 1 - a) sl)) = .ok (.inl v) ∧ v.WF ∧
+        v.shape = skShape (ubSK a (t.length - 1 - a) sl) t.shape ∧
+        ∀ out, out.length = v.length → v.dense out = t.dense (skSrc (ubSK a (t.length - 1 - a) sl) out)) := by
+    intro sl hsl
+    apply getitem_simple t ht
+    · rw [sqops_skCons_ub]; omega
+    · apply sqops_skOK_ub
+      intro n hn
+      rw [hgetD] at hn
+      simp only [Option.some.injEq] at hn
+      omega
+  have hshape : ∀ sl, skShape (ubSK a (t.length - 1 - a) sl) t.shape = t.shape.take a ++ t.shape.drop (a + 1) :=
+    fun sl => sqops_skShape_ub a _ sl t.shape (by rw [shape_length]; omega)
+  have hshl : (t.shape.take a ++ t.shape.drop (a + 1)).length = t.length - 1 := by
+    simp [List.length_take, List.length_drop, shape_length]; omega
+  obtain ⟨ys, y1, y2, y3⟩ := sqops_mapM_ok (fun sl => sqops_wrap (t.getitem (sqops_ubKey t.length (a : Int) sl)))
+      (List.range (t.shape.getD a 0)) (by
+    intro sl hsl'
+    have hlt : sl < t.shape.getD a 0 := List.mem_range.mp hsl'
+    obtain ⟨c1, c2⟩ := hsl sl hlt
+    rw [hkey]
+    by_cases hs : skShape (ubSK a (t.length - 1 - a) sl) t.shape = []
+    · rw [c1 hs]; exact ⟨_, rfl⟩
+    · obtain ⟨v, e, _⟩ := c2 hs
+      rw [e]; exact ⟨_, rfl⟩)
+  refine ⟨ys, ?_, by simpa using y2, ?_⟩
+  · unfold Tensor.unbind
+    simp only [hdd, hget]
+    exact y1
+  · intro k hk
+    obtain ⟨y, hy1, hy2⟩ := y3 k k (List.getElem?_range hk)
+    obtain ⟨c1, c2⟩ := hsl k hk
+    rw [hkey] at hy2
+    constructor
+    · intro hN
+      have hs : skShape (ubSK a (t.length - 1 - a) k) t.shape = [] := by
+        rw [hshape]; apply List.eq_nil_of_length_eq_zero; rw [hshl, hN]
+      rw [c1 hs] at hy2
+      simp only [sqops_wrap, Except.ok.injEq] at hy2
+      rw [hy1, ← hy2]
+      have ha0 : a = 0 := by omega
+      subst ha0
+      rw [sqops_skSrc_ub 0 _ k [] (by simp [hN])]
+      simp
+    · intro hN
+      have hs : skShape (ubSK a (t.length - 1 - a) k) t.shape ≠ [] := by
+        rw [hshape]; intro h
+        have := congrArg List.length h
+        rw [hshl] at this; simp at this; omega
+      obtain ⟨v, e, w, sh, dd⟩ := c2 hs
+      rw [e] at hy2
+      simp only [sqops_wrap, Except.ok.injEq] at hy2
+      refine ⟨v, by rw [hy1, ← hy2], w, by rw [sh, hshape], ?_⟩
+      intro out ho
+      rw [dd out ho, sqops_skSrc_ub a (t.length - 1 - a) k out (by
+        rw [ho, ← shape_length, sh, hshape, hshl]; omega)]
+
+/-- `dim ≥ N` makes `tn.unbind` raise an IndexError (`t.shape[dim]`) -/
+theorem unbind_index_error (t : Tensor R) (dim : Int) (h : (t.length : Int) ≤ dim) : t.unbind dim = .error .index := by
+  have h0 : ¬ dim < 0 := by omega
+  unfold Tensor.unbind sqops_pyGet
+  simp only [h0, if_false]
+  rw [normInt_err dim t.shape.length (Or.inr (by rw [shape_length]; exact h))]
+
+/-! ### the hypotheses are satisfiable -/
+section nonvacuous
+/-- a 3-mode tensor of shape (1, 2, 1): TT core, CP core with a Tucker factor, TT core -/
+def exS : Tensor ℚ :=
+  [ { core := .tt 1 1 2 (fun _ _ b => (b : ℚ) + 1), U := Option.none },
+    { core := .cp 2 2 (fun j a => (j : ℚ) + 2 * a + 1), U := some { rows := 2, cols := 2, f := fun i j => (i : ℚ) - j + 3 } },
+    { core := .tt 2 1 1 (fun a _ _ => (a : ℚ) - 2), U := Option.none } ]
+theorem exS_wf : exS.WF := ⟨rfl, trivial, rfl, rfl, rfl, trivial, trivial⟩
+
+example := squeeze_dense exS exS_wf [-1] [2] (by decide) (by decide)
+example := squeeze_dense exS exS_wf [0, -1] [0, 2] (by decide) (by decide)
+example := squeeze_none_dense exS exS_wf
+example := squeeze_assert exS [1] [1] (by decide) (by decide)
+example := unsqueeze_dense exS exS_wf [0, -1] [0, 4] (by decide) (by decide)
+example := unbind_dense exS exS_wf (-2) (by decide)
+example := unsqueeze_dup_error exS [1, -4] [1, 1] (by decide) (by decide)
+end nonvacuous
 
 end TN.C03
